@@ -25,10 +25,10 @@ TAU = 1e-9
 DOMAIN_RESTRICTED = {"LogConstraint", "LogAConstraint", "PowConstraint", "AsinConstraint", "AcosConstraint", "AcoshConstraint",
                      "AtanhConstraint", "DivConstraint", "TanConstraint", "ExpConstraint", "ExpAConstraint", "SinhConstraint", "CoshConstraint"}
 
-BOXES_INT = [(0, 1), (-3, 3), (0, 5), (2, 2), (-2, 0), (1, 4), (-5, -1), (0, 0), (-1, 1), (3, 7), (-4, 6)]
+BOXES_INT = [(0, 1), (-3, 3), (0, 5), (2, 2), (-2, 0), (1, 4), (-5, -1), (0, 0), (-1, 1), (3, 7), (-4, 6), (-3, 1), (-6, 2)]
 BOXES_CONT = [(F(-2), F(2)), (F(0), F(4)), (F(-4), F(-1)), (F(3, 2), F(3, 2)), (F(0), F(1)), (F(-1), F(3)), (F(1, 2), F(5, 2)),
               (F(-1, 2), F(1, 2)), (F(0), nl.INF), (-nl.INF, F(0)), (-nl.INF, nl.INF), (F(1), nl.INF), (F(-10**6), F(10**6)), (F(1, 10), F(9, 10)),
-              (F(-7, 2), F(-1, 4))]
+              (F(-7, 2), F(-1, 4)), (F(-3), F(1)), (F(-5, 2), F(1, 2)), (F(-10), F(1, 2))]      # incl. zero-crossing boxes with |lb| > ub
 
 
 @st.composite
@@ -134,6 +134,8 @@ def judge(n, ops, opts, res, known=()):
                 continue
             npts += 1
             tau = TAU * max(1.0, abs(val))
+            if isinstance(val, complex) or val != val:
+                continue          # the function is undefined at this argument (negative base with a fractional exponent)
             if val < lbf[r] - tau or val > ubf[r] + tau:
                 bad = ("bounds-cut-off", "%s: result x%d has bounds [%s, %s] but f(%s) = %r for arguments %s with boxes %s (params %s)" % (
                     c.type, r, fm.lb[r], fm.ub[r], ",".join("x%d=%r" % (v, x[v]) for v in argv_u), val, argv,
